@@ -92,6 +92,10 @@ func runC12(w *World) {
 		}
 		st := w.Draw(3, "state")
 		second := !passive && w.Chance(1, 4, "second-conn")
+		// the error coincides with the resolution of a connection collision: the remote's
+		// OPEN on the second connection arrives together with it
+		coincide := second && st == StOpenConfirm && w.Chance(1, 2, "error-coincides-with-collision")
+		var c2nd *Conn
 		// ---- acquire a connection in the target state ----
 		var c *Conn
 		if dir == DirOut {
@@ -115,6 +119,7 @@ func runC12(w *World) {
 				if dl := p.Site.WaitDial(bound); dl != nil {
 					if c2 := dl.Accept(); c2 != nil && ExpectOpen(c2, time.Second) != nil {
 						w.Probe("second-connection-in-progress")
+						c2nd = c2
 					}
 				}
 				w.Quiesce()
@@ -148,6 +153,7 @@ func runC12(w *World) {
 			// an inbound connection in OpenSent next to the outbound one (zero virtual time)
 			if c2 := e.OpenConn(p, DirIn, time.Minute); c2 != nil && ExpectOpen(c2, time.Second) != nil {
 				w.Probe("second-connection-in-progress")
+				c2nd = c2
 			}
 			w.Quiesce()
 		}
@@ -185,6 +191,18 @@ func runC12(w *World) {
 		name := ""
 		before := c.NFrames()
 		slept0, tInj, seqT := w.LogSlept, w.Now(), w.Seq()
+		openAfter := false
+		if coincide && c2nd != nil && !c2nd.LocalClosed() {
+			w.Probe("error-coincides-with-collision")
+			if w.Draw(2, "open-first") == 0 {
+				c2nd.SendSeg(p.Speaker.OpenFrame())
+				for i, n := 0, w.Draw(8, "coincide-yields"); i < n; i++ {
+					w.Yield("c12.coincide")
+				}
+			} else {
+				openAfter = true
+			}
+		}
 		if w.Chance(1, 3, "concurrent-inbound") {
 			// keep the peer manager busy with something else at the very moment the
 			// error is reported: an inbound connection from the same peer
@@ -261,9 +279,29 @@ func runC12(w *World) {
 			c.SendSeg(MkNotif(6, 2, nil))
 			name, damp = "rx-cease", false
 		}
+		if openAfter {
+			for i, n := 0, w.Draw(8, "coincide-yields"); i < n; i++ {
+				w.Yield("c12.coincide")
+			}
+			if !c2nd.LocalClosed() {
+				c2nd.SendSeg(p.Speaker.OpenFrame())
+			}
+		}
 		w.Quiesce()
 		t := tInj // (a slow Logger makes the settling above take time)
 		fs := NewFrames(c, before)
+		if coincide && damp && kind <= 1 {
+			// The remote's NOTIFICATION raced with the collision: if corebgp sent its
+			// collision Cease on c, the FSM of c never handled the NOTIFICATION (it closes
+			// the connection when it does, so it could not have sent the Cease afterwards):
+			// nothing was received in the sense of the statement and no hold-down is owed.
+			for i := range fs {
+				if fs[i].IsNotif(6, -1) {
+					damp = false
+					w.Probe("collision-cease-overtook-the-remote-notification")
+				}
+			}
+		}
 		if (kind >= 2 && kind <= 7) || kind == 12 {
 			// corebgp must have sent the NOTIFICATION that starts the hold-down; take its time
 			var nf *Frame
@@ -312,6 +350,13 @@ func runC12(w *World) {
 					// a non-damping event ends its own connection only; get rid of the other one
 					x.FIN()
 					continue
+				}
+				if coincide && x == c2nd && c.LocalClosed() && len(x.AllFrames()) >= 2 {
+					// the history of known finding D9 (DESIGN 11.4): corebgp answered the remote's
+					// OPEN on the second connection (it won the collision) although the FSM of the
+					// first one had already sent or handled the protocol NOTIFICATION
+					w.Violate("C12/protocol-error-lost/collision-kill-wins-the-report", "after %s (history %v) on %s, at the instant the peer manager resolved the collision in favour of %s: %s was closed, but the protocol error never reached the peer manager - %s is still open (%s) and there is no hold-down", name, hist, c, x, c, x, descFrames(x.AllFrames()))
+					return
 				}
 				w.Violate("C12/connection-not-dropped", "after %s connection %s is still open", name, x)
 				return
